@@ -1456,7 +1456,8 @@ def histogramdd(sample, bins, range=None, normed=None, weights=None, density=Non
     if weights is not None:
         w_keys = flatten(weights.__dask_keys__())
         deps += (weights,)
-        dtype = weights.dtype
+        # np.histogramdd returns floats whatever the dtype of the weights
+        dtype = np.result_type(weights.dtype, np.histogramdd([])[0].dtype)
     else:
         w_keys = (None,) * n_chunks
         dtype = np.histogramdd([])[0].dtype
